@@ -33,7 +33,7 @@ TraceCopy == /\ l <= Len(Trace)
              /\ UNCHANGED sc
              /\ IF skipping \/ CopyOK(Trace[l].kind, Trace[l].out, Trace[l].nb)
                 THEN /\ UNCHANGED skipping
-                     /\ skipping \/ CopyDriftOK(Trace[l].kind) \/ PrintT(<<"DRIFT_LINE", l>>)
+                     /\ IF skipping \/ CopyDriftOK(Trace[l].kind) THEN TRUE ELSE PrintT(<<"DRIFT_LINE", l>>)
                 ELSE PrintT(<<"REJECTED_LINE", l>>) /\ skipping' = TRUE
 
 TraceNext == TraceReset \/ TraceCopy
